@@ -63,6 +63,14 @@ def cases(rng, tier):
                     ws = allw
                 k = rng.randint(0, 6)
                 is_ = [rng.randint(0, ln - 1) for _ in range(k)] if ln else []
+                if ln >= 3 and rng.random() < 0.35:
+                    # a long position list (at least one register's worth) that looks like a run from its ends only: a contiguous
+                    # block whose inner positions are permuted / repeated / replaced by positions elsewhere
+                    lo = rng.randrange(0, ln - 2); hi2 = rng.randrange(lo + 2, ln)
+                    inner = list(range(lo + 1, hi2)); rng.shuffle(inner)
+                    for _ in range(rng.randint(0, 2)):
+                        inner[rng.randrange(len(inner))] = rng.randrange(0, ln)
+                    is_ = [lo] + inner + [hi2]
                 out.append({"a": a, "b": b, "dtype": dt, "ws": ws, "is": is_})
     return out
 
@@ -83,8 +91,20 @@ def distribution(ps):
             "straddling_windows": sum(1 for p in ps for w in p["ws"] if w > 1 and len(p["a"]) > 64 // p["b"])}
 
 
+_warm = [False]
+
+
 def run_impl(p):
     from npstructures import BitArray
+    if not _warm[0]:
+        # the sibling class BitMask (8-bit registers) is used once in the process before any BitArray: anything BitArray remembers
+        # per bit stride must not come from there
+        _warm[0] = True
+        try:
+            from npstructures.bitarray import BitMask
+            m = BitMask.zeros(20); m[3] = True; m[3]
+        except Exception:
+            pass
     def f():
         arr = np.array(p["a"], dtype=p["dtype"])
         before = arr.copy()
